@@ -137,8 +137,12 @@ def genNum (Γ : Ctx) : Nat → Gen Ast
       if !fs.isEmpty then pure (.call (.ident (← pick fs)) (← genNum Γ d))
       else pure (.call (← genFn Γ d) (← genNum Γ d))
     | 20 => do pure (.call (← genFn Γ d) (← genNum Γ d))
-    | 21 => do pure (.and_ (← genNum Γ d) (← genNum Γ d))
-    | 22 => do pure (.or_ (← genNum Γ d) (← genNum Γ d))
+    | 21 => do
+      if ← chance 1 3 then pure (.and_ (← genNum Γ d) (← pick [Ast.ff, .num 0, setOf [], .tt, .num 1]))
+      else pure (.and_ (← genNum Γ d) (← genNum Γ d))
+    | 22 => do
+      if ← chance 1 3 then pure (.or_ (← genNum Γ d) (← pick [Ast.tt, .num 1, .str [97], .ff, .num 0]))
+      else pure (.or_ (← genNum Γ d) (← genNum Γ d))
     | 23 => do
       if ← chance 1 2 then pure (.paren (← genNum Γ d)) else do
         -- reducers: `set sum f`, `set max f`, `set min f`
@@ -279,7 +283,9 @@ def genProg (d : Nat) : Gen Ast := do
   | 6 => do pure (arrOf [← genNum [] d, ← genSet [] d])
   | 7 => do
     match ← rand 3 with
-    | 0 => do pure (setOf [← genStr, ← genStr])
+    | 0 => do
+      if ← chance 1 2 then pure (setOf [← genStr, ← genStr])
+      else do pure (arrOf [.bytes (← genList ((← rand 3) + 1) (do pure (65 + (← rand 5)))), ← genStr])
     | 1 => do pure (dictOf [(.num 1, ← genNum [] d), (← genStr, ← genBool [] d)])
     | _ => do pure (tupOf [("a", ← genStr), ("b", ← genArr [] d)])
   | _ => genNum [] d
@@ -346,17 +352,37 @@ def spellItems (attr : String) : List Ast → Nat → List Ast
 
 def isLitAst (a : Ast) : Bool := match compileG true false a with | .lit _ => true | _ => false
 
-def spell : Ast → Option Ast
-  | .str cs => some (setOf (spellItems "@char" (cs.map .num) 0))
-  | .coll .arr items => some (setOf (spellItems "@item" ((spineToList items).map (·.2.2)) 0))
+def indexedA : List Ast → Nat → List (Ast × Ast)
+  | [], _ => []
+  | v :: r, i => (.num i, v) :: indexedA r (i + 1)
+
+/-- the parts of a sugared value: the attribute name and its (index or key, element) pairs -/
+def sugarParts : Ast → Option (String × List (Ast × Ast))
+  | .str cs => some ("@char", indexedA (cs.map .num) 0)
+  | .bytes bs => some ("@byte", indexedA (bs.map .num) 0)
+  | .coll .arr items => some ("@item", indexedA ((spineToList items).map (·.2.2)) 0)
   | .coll .dict items =>
     -- a dict with literal, pairwise distinct keys (a set of (@, @value) tuples may repeat a key, a dict may not)
     match compileG true true (.coll .dict items) with
-    | .lit _ => some (setOf ((spineToList items).map fun (_, k, v) => tupOf [("@", k), ("@value", v)]))
+    | .lit _ => some ("@value", (spineToList items).map fun (_, k, v) => (k, v))
     | _ => none
-  | .tt => some (setOf [tupOf []])
-  | .ff => some (setOf [])
   | _ => none
+
+/-- the spelled-out forms of a sugared value:
+0 = set of `(@: k, nm: v)` tuples, 1 = the same with the attributes written in the other order,
+2 = relation literal `{|@, nm| (k, v), …}`, 3 = relation literal with the heading in the other order `{|nm, @| (v, k), …}` -/
+def spellAs (form : Nat) (a : Ast) : Option Ast :=
+  match sugarParts a with
+  | some (nm, kvs) =>
+    let row (k v : Ast) : Ast := if form % 2 == 0 then tupOf [("@", k), (nm, v)] else tupOf [(nm, v), ("@", k)]
+    let rows := kvs.map fun (k, v) => row k v
+    some (if form < 2 then setOf rows else .coll .rel (mkList rows))
+  | none =>
+    match a with
+    | .tt => some (setOf [tupOf []])
+    | .ff => some (setOf [])
+    | _ => none
+def spell : Ast → Option Ast := spellAs 0
 def spellSame (a : Ast) : Option Ast := (spell a).map fun _ => a
 
 /-- free occurrences of the name `old` renamed to `new` (binders of `old` shadow) -/
@@ -638,9 +664,99 @@ def genAgree (id : String) : Gen Case := do
   pure { id := id, cls := "good", kind := "agree", stratum := s!"agree/{t.op}", model := "agree", spec := "agree",
          payload := [a, b, c] }
 
+/-! ## relation literals: the heading in every attribute order, against the explicit tuples and the sugar -/
+
+def permute {α} (p : List Nat) (xs : List α) [Inhabited α] : List α := p.map fun i => xs.getD i default
+
+def genRelPermAsts : Gen (String × List Ast) := do
+  let special ← pick ["@item", "@char", "@value", "@byte", "@item", "@value", "b"]
+  let three ← chance 1 3
+  let names : List String :=
+    if special == "b" then (if three then ["a", "b", "c"] else ["a", "b"])
+    else (if three then ["@", special, "x"] else ["@", special])
+  let nrows := (← rand 3) + 1
+  let cellFor (nm : String) (i : Nat) : Gen Ast := do
+    match nm with
+    | "@" => pure (.num i)
+    | "@char" => do pure (.num (97 + (← rand 4)))
+    | "@byte" => do pure (.num (65 + (← rand 4)))
+    | _ => do if ← chance 1 4 then genNum [] 1 else pure (.num (← rand 9))
+  let mut rows : List (List Ast) := []
+  for i in [0:nrows] do
+    let mut r : List Ast := []
+    for nm in names do
+      r := r ++ [← cellFor nm i]
+    rows := rows ++ [r]
+  let perms : List (List Nat) := if three then [[0, 1, 2], [2, 1, 0], [1, 2, 0], [1, 0, 2]] else [[0, 1], [1, 0]]
+  let rel (p : List Nat) : Ast := .coll .rel (mkList (rows.map fun r => tupOf (permute p (names.zip r))))
+  let tuples (p : List Nat) : Ast := setOf (rows.map fun r => tupOf (permute p (names.zip r)))
+  let p1 ← pick perms
+  let p2 ← pick (perms.filter (· != p1))
+  -- the sugar literal, where the relation is one (dense indices from 0 / distinct keys)
+  let vals := rows.map fun r => r.getD 1 (.num 0)
+  let sugar : List Ast :=
+    if three || special == "b" || nrows == 0 then [] else
+    match special with
+    | "@item" => [arrOf vals]
+    | "@value" => [dictOf (rows.map fun r => (r.getD 0 (.num 0), r.getD 1 (.num 0)))]
+    | "@char" => [.str (vals.map fun | .num n => n | _ => 97)]
+    | _ => [.bytes (vals.map fun | .num n => n | _ => 65)]
+  pure (s!"sugar/rel/{special}{if three then "/3" else ""}", [rel p1, rel p2, tuples p1, tuples p2] ++ sugar)
+
+def genRelPerm (id : String) : Gen Case := do
+  let (stratum, vs) ← genRelPermAsts
+  pure (mkMeta id stratum (← vs.mapM rend))
+
+/-! ## `&&`, `||`, cond with a LITERAL operand on either side, spelled inline, parenthesised and let-bound -/
+
+def falsyLits : List Ast := [.ff, setOf [], .num 0, .str [], arrOf [], tupOf []]
+def truthyLits : List Ast := [.tt, .num 1, .str [97], setOf [tupOf []], tupOf [("a", .num 0)], arrOf [.num 0], .num 2]
+
+def genLogicLitAsts : Gen (String × List Ast) := do
+  let shape ← rand 9
+  -- the operand that a wrong fold would drop matters most when the literal decides nothing by itself:
+  -- `x && <false-like>` is x when x is false-like (of any kind) and fails when x fails; dually for `||`
+  let andish := shape == 0 || shape == 1 || shape == 2
+  let orish := shape == 3 || shape == 4 || shape == 5
+  let preferFalsy ← if andish then chance 3 4 else if orish then chance 1 4 else chance 1 2
+  let l ← if preferFalsy then pick falsyLits else pick truthyLits
+  let l2 ← if ← chance 1 2 then pick falsyLits else pick truthyLits
+  -- the other operand: a name bound to a value of another kind, arithmetic, a failing term, a literal
+  let zFalsy ← if andish then chance 3 4 else if orish then chance 1 4 else chance 1 2
+  let zv ← if zFalsy then pick falsyLits else pick truthyLits
+  let other ← match ← rand 7 with
+    | 0 | 1 | 2 => pure (Ast.ident "z")
+    | 3 => pick errTerms
+    | 4 => do pure (.bin .sub (.num (← rand 3)) (.num 1))
+    | 5 => genNum [("z", .num)] 1
+    | _ => pure (.paren (.ident "z"))
+  -- `lit` is the spelling of the literal operand
+  let core (lit : Ast) : Ast := match shape with
+    | 0 | 1 => .and_ other lit
+    | 2 => .and_ lit other
+    | 3 | 4 => .or_ other lit
+    | 5 => .or_ lit other
+    | 6 => condOf [(other, lit), (.ident "_", l2)]
+    | 7 => condOf [(lit, other), (.ident "_", l2)]
+    | _ => .and_ (.or_ other lit) (.or_ l2 (.and_ lit other))
+  let ctx ← rand 4
+  let wrap (a : Ast) : Ast := match ctx with
+    | 0 => arrOf [a, .num 7]
+    | 1 => .or_ a (.num 9)
+    | _ => a
+  let prog (lit : Ast) : Ast := .let_ (.ident "z") zv (wrap (core lit))
+  let inline := prog l
+  let paren := prog (.paren l)
+  let bound := Ast.let_ (.ident "z") zv (.let_ (.ident "f") l (wrap (core (.ident "f"))))
+  pure (s!"logic-lit/{shape}", [inline, paren, bound])
+
+def genLogicLit (id : String) : Gen Case := do
+  let (stratum, vs) ← genLogicLitAsts
+  pure (mkMeta id stratum (← vs.mapM rend))
+
 def kinds : List String :=
   ["let", "let", "sugar", "dot", "dot", "paren", "paren", "parenfn", "trivia", "subst", "subst", "short", "short",
-   "scope", "gap", "nested", "nested", "nested", "alias", "alias", "alias", "agree"]
+   "scope", "gap", "nested", "nested", "nested", "alias", "alias", "alias", "agree", "logic", "logic", "logic", "sugar"]
 
 /-- is the rewrite kind applicable somewhere in `t`? -/
 def applicable (kind : String) (t : Ast) : Bool :=
@@ -672,9 +788,11 @@ def genCase (idx : Nat) (thorough : Bool) : Gen Case := do
     | some [a, b, c] => pure (mkMeta id "let-arrow-call" [← rend a, ← rend b, ← rend c])
     | _ => fallback
   | "sugar" =>
-    match ← applyAt t [spellSame, spell] with
-    | some [a, b] => pure (mkMeta id "sugar" [← rend a, ← rend b])
+    if ← chance 1 3 then genRelPerm id else
+    match ← applyAt t [spellSame, spellAs 0, spellAs 1, spellAs 2, spellAs 3] with
+    | some [a, b, c, r1, r2] => pure (mkMeta id "sugar" [← rend a, ← rend b, ← rend c, ← rend r1, ← rend r2])
     | _ => fallback
+  | "logic" => genLogicLit id
   | "dot" =>
     let fresh ← pick ["v1", "arg", "it"]
     match ← applyAt t [dotSame, dotExplicit, dotFresh fresh] with
